@@ -535,7 +535,10 @@ Label BaseBuilder::new_named_label(const char* name, size_t name_size, LabelType
 
 Error BaseBuilder::bind(const Label& label) {
   LabelNode* node;
-  ASMJIT_PROPAGATE(label_node_of(Out(node), label));
+  Error err = label_node_of(Out(node), label);
+  if (ASMJIT_UNLIKELY(err != Error::kOk)) {
+    return report_error(err);
+  }
 
   // The node is already part of the node list - the label has been bound already.
   if (ASMJIT_UNLIKELY(node->is_active())) {
